@@ -236,17 +236,22 @@ def check_c16(tier, seed, verdict, workdir):
     shards = 8 if tier == "quick" else 16
     n_audit = 60 if tier == "quick" else 1500
     n_rand = 30 if tier == "quick" else 300
+    n_ph = 2000 if tier == "quick" else 60000
 
     def one(i):
         rc1, aud = drive_lines(["agent-audit", "--seed", str(seed * 100 + i), "--n", str(n_audit)], workdir, f"a{i}")
         rc2, rand_lines = drive_lines(["sim-gen", "--seed", str(seed * 100 + 70 + i), "--n", str(n_rand), "--mix", "0"], workdir, f"r{i}")
-        stream = "\n".join(l for l in rand_lines if l[:2] in ("H ", "O ", "I "))
+        rc3, ph_lines = drive_lines(["price-helpers", "--seed", str(seed * 100 + i), "--n", str(n_ph)], workdir, f"h{i}")
+        stream = "\n".join([l for l in rand_lines if l[:2] in ("H ", "O ", "I ")] + [l for l in ph_lines if l.startswith("PH ")])
         q = subprocess.run([C.DRIVER], input=stream + "\n", stdout=subprocess.PIPE, stderr=subprocess.PIPE, text=True)
         finds, stats, done = book.parse_driver(q.stdout, f"sim{i}")
-        return rc1 or rc2, [l for l in aud if l.startswith("AA ")], finds, stats, done
+        if q.returncode != 0 or not done:
+            rc3 = 1
+        return rc1 or rc2 or rc3, [l for l in aud if l.startswith("AA ")], finds, stats, done
 
     res = shard_map(one, shards)
     bad, k_found, samples = [], [], []
+    stats_all = {}
     n_cfg = n_orders = n_cancels = n_nontrivial = 0
     kinds = {}
     totals = {}
@@ -256,6 +261,11 @@ def check_c16(tier, seed, verdict, workdir):
         for k, v in done.items():
             totals[k] = totals.get(k, 0) + v
         k_found += [repr(f) for f in finds if f.kind == "K"]
+        for k, v in stats.items():
+            stats_all[k] = stats_all.get(k, 0) + v
+        for f in finds:
+            if f.kind == "A" and f.audit == "C16":
+                bad.append(("price_helpers:" + ",".join(sorted(f.fields)), f.op, f.hid))
         for l in aud:
             t = l.split(" ")
             n_cfg += 1
@@ -275,8 +285,9 @@ def check_c16(tier, seed, verdict, workdir):
         if key in seen or len(seen) >= 3:
             continue
         seen.add(key)
+        sub = "price-helpers" if hid.startswith("ph-") else "agent-audit"
         verdict.violation({"kind": "impl-violates-property", "obligation": "A(C16): " + what, "config": cfg, "run": hid,
-                           "replay_cmd": f".build/harness/debug/drive agent-audit --seed {hid.split('-')[1]} --n {int(hid.split('-')[2]) + 1} | tail -1"},
+                           "replay_cmd": f".build/harness/debug/drive {sub} --seed {hid.split('-')[1]} --n {int(hid.split('-')[2]) + 1} | tail -1"},
                           f"implementation violates C16: {what} for `{cfg}`")
     failed = finish_proofs(prop, verdict, pr, [], bad)
     if k_found and not bad:
@@ -291,15 +302,20 @@ def check_c16(tier, seed, verdict, workdir):
                 "sigma up to 10, empty/one-sided/two-sided starting books, 1..200 steps) driven step by step on the real environment; every "
                 "instruction emitted is audited (grid, tick and volume range, side vs observed mid, trader id, once per trader, probability 0 / >=1 "
                 "corners, cancels only of own active orders, at most one live order per random agent, no abort); RandomAgents-only simulations are "
-                "also compared bit-for-bit with the Lean model; non-trivial = configurations with both orders and cancellations",
+                "also compared bit-for-bit with the Lean model; the real f64 price helpers (round_price_down/up, place_buy/sell_limit_order and "
+                "their multi-asset twins, driven with a fixed-value distribution) are compared with the exact-rational model on dyadic inputs "
+                "(mids at the bottom, in the middle and at the top of the price range, samples of either sign up to 2^47, +inf) and the grid / "
+                "side-of-mid clauses are evaluated on their output; non-trivial = configurations with both orders and cancellations",
         "samples": samples,
         "agent_kinds": kinds, "orders_audited": n_orders, "cancellations_audited": n_cancels,
         "runs_compared_with_lean_model": totals.get("histories", 0),
+        "price_helper_inputs_compared": {k: v for k, v in sorted(stats_all.items()) if k.startswith("ph:")},
         "model_vs_impl_disagreements": len(k_found), "disagreements_checked": len(k_found),
         "impl_vs_property_failures": len(bad),
     })
-    return cov, ["PARTIAL on floats: LogNormal sampling and float rounding of the noise/momentum agents are audited on real runs, not proved; "
-                 "theorems cover RandomAgents exactly, Bernoulli corners and the grid repair of a clamped sell price",
+    return cov, ["PARTIAL on floats: the quoted prices are proved valid in exact arithmetic for every sample, and the f64 helpers agree with "
+                 "that model on every dyadic input explored; for other samples (LogNormal draws) f64 rounding is audited on real runs, not proved; "
+                 "theorems cover RandomAgents exactly and the Bernoulli corners",
                  "cancellations of non-active orders are invisible through the public API (a no-op in the book) and are not audited for noise/momentum agents",
                  "mid-prices are assumed far below 2^32 (a sell clamped to the top of the price range can land below a mid that is itself within one tick of Price::MAX)"]
 
